@@ -124,6 +124,7 @@ type Kernel struct {
 	HostEuid        int
 	TracerPresent   bool // a tracer drives the child: self-stops and exec events really stop it
 	LastStatfsFlags int64
+	StatfsFlags     map[string]int64 // mount flags of the file system holding a path (symbolic, fixed per path)
 	// id-map files written by the parent: path -> content
 	ProcFiles map[string]string
 	ProcOpen  map[int]string // fd -> path for /proc/<pid>/... files opened by writeFile
@@ -441,7 +442,14 @@ func (k *Kernel) syscall(trap, a1, a2, a3, a4, a5, a6 uintptr) (r1, r2 uintptr, 
 			return errRet, 0, e
 		}
 		st := (*syscall.Statfs_t)(sym.PtrOf(a2))
-		st.Flags = int64(sym.U64("statfs_flags"))
+		src := sym.CString(a1)
+		if k.StatfsFlags == nil {
+			k.StatfsFlags = map[string]int64{}
+		}
+		if _, ok := k.StatfsFlags[src]; !ok {
+			k.StatfsFlags[src] = int64(sym.U64("statfs_flags"))
+		}
+		st.Flags = k.StatfsFlags[src]
 		k.LastStatfsFlags = st.Flags
 		return 0, 0, 0
 
